@@ -21,7 +21,7 @@ from tradingenv import rewards as R
 
 CLAUSE_PROPS = {
     "entries": ["C07"], "stamp": ["C07"], "track_nlv": ["C07"], "track_trades": ["C07"], "track_costs": ["C07"],
-    "reward": ["C07"], "compound": ["C07"], "pos": ["C07"], "frames": ["C07"],
+    "reward": ["C07"], "compound": ["C07"], "pos": ["C07"], "frames": ["C07"], "track_holdings": ["C07"],
     "broke_traded": ["C09"], "ruin_step": ["C09"], "ended": ["C09"], "done": ["C09"], "signal": ["C09"],
     "roll": ["C11"], "expiry_hold": ["C11"],
     "out": [],
@@ -159,6 +159,26 @@ def compare_step(w, rec, out, val, before):
         got = {c: q for c, q in got.items() if abs(q) * 1.0 > 1e-9 * nlv0 / 1e3}
         if set(got) != set(exp_tr) or any(not close(got[c], exp_tr[c], 1e-8) for c in got):
             fails.append(("track_trades", "entry lists trades %s, spec %s" % (got, {k: str(v) for k, v in exp_tr.items()}), ""))
+        snap = rec.get("snap")
+        if isinstance(snap, dict):
+            # the holdings, cash and margins the entry reports are the ones the account had at those two moments
+            for tag, ctx in (("pre", e.context_pre), ("post", e.context_post)):
+                for n, c in w.contracts.items():
+                    q = float(ctx.nr_contracts.get(c, 0.0))
+                    if not close(q, frac(snap[tag + "pos"][n]), 1e-9):
+                        fails.append(("track_holdings", "entry reports %s-trade holding %s = %r, the account had %s" % (tag, n, q, frac(snap[tag + "pos"][n])), ""))
+                    mg = float(ctx.margins.get(c, 0.0))
+                    if not close(mg, frac(snap[tag + "mrg"][n]), 1e-9):
+                        fails.append(("track_holdings", "entry reports %s-trade margin %s = %r, the account had %s" % (tag, n, mg, frac(snap[tag + "mrg"][n])), ""))
+                cash = float(ctx.nr_contracts.get(w.env.broker.base_currency, 0.0))
+                if not close(cash, frac(snap[tag + "cash"]), 1e-9):
+                    fails.append(("track_holdings", "entry reports %s-trade cash %r, the account had %s" % (tag, cash, frac(snap[tag + "cash"])), ""))
+                nl = float(ctx.nlv)
+                for n, c in w.contracts.items():
+                    wt = float(ctx.weights.get(c, 0.0))
+                    vv = float(ctx.values.get(c, 0.0))
+                    if abs(wt * nl - vv) > 1e-9 * max(1.0, abs(vv)):
+                        fails.append(("track_holdings", "entry reports %s-trade weight %s = %r but value / NLV = %r" % (tag, n, wt, vv / nl if nl else None), ""))
         comm = sum(t.cost_of_commissions for t in e.trades)
         if not close(comm, frac(rec["comm"])) or not close(e.profit_on_idle_cash, frac(rec["interest"])):
             fails.append(("track_costs", "entry reports commissions %r and interest %r, spec %s and %s" % (
